@@ -252,6 +252,11 @@ fn main() {
     cov.insert("rule".into(), json!(format!(
         "for each of {} self-delimiting parsers: every catalogue encoding of its family with every combination of <= {} deviations and every string of bounded length over a positional alphabet; on each input b: (L1) if f(b)=Ok(v,rem): rem is pointer-and-content a suffix of b, every non-empty slice reachable from v lies inside the consumed bytes, f(b[..consumed]) returns the same value, and f(b||x) returns the same value and consumption for up to 14 suffixes x (a zero byte, ff ff ff, a copy of b, a valid HelloRequest record, a valid extension, and b without its first 1/2/3/4/5/13 bytes, i.e. the structure's own inner elements repeated after it, and - for inputs up to 1200 bytes - 300 zero bytes and 1100 ff bytes, for inputs up to 48 bytes also 70000 counting bytes); (L2) if f(b) is a non-Incomplete error, f(b||x) is still an error; (L3) defragmenter: the C07 exploration with region-relative slice positions. Non-trivial: not cut inside a fixed header",
         all.len(), d)));
+    // the same check against the crate built with all cargo features (std, serialize, unstable)
+    let mut sink = sink;
+    if run.tier == Tier::Thorough {
+        run.all_features_variant(&mut sink);
+    }
     let code = run.finish(
         &sink,
         cov,
